@@ -56,7 +56,7 @@ def cls(v):
     return type(v).__name__
 
 
-REQUIRED = (['online:select-in-method-form', 'online:sort-with-missing-key-cells', 'online:mergesort-3+-inputs', 'online:sort-chunked-3+-chunks', 'online:sort-chunked-3+-chunks-reverse', 'law-pairs', 'law-triples', 'online:sort', 'online:join', 'online:select', 'online:issorted', 'online:mergesort',
+REQUIRED = (['online:join-with-rows-that-lack-the-key-cell', 'online:select-in-method-form', 'online:sort-with-missing-key-cells', 'online:mergesort-3+-inputs', 'online:sort-chunked-3+-chunks', 'online:sort-chunked-3+-chunks-reverse', 'law-pairs', 'law-triples', 'online:sort', 'online:join', 'online:select', 'online:issorted', 'online:mergesort',
              'nested-vs-flat'] + ['classpair:%s|%s' % (x, y) for x in CLASSES for y in CLASSES])
 
 
@@ -100,6 +100,14 @@ def cases(ctx):
             c['via'] = rng.choice([None, None, 'method', 'alias'])      # etl.selectge(t, ..), etl.wrap(t).selectge(..), etl.wrap(t).ge(..)
         if which in ('join', 'mergesort'):
             c['table2'] = [['k', 'b']] + [[rng.choice(pool), 's%d' % r] for r in range(rng.randint(0, 5))]
+        if which == 'join' and rng.random() < 0.3:
+            # rows too short to hold the key cell, and a fill value that does not sort first: the fill value is then the row's key
+            for tb in (t, c['table2']):
+                for r_ in tb[1:]:
+                    if rng.random() < 0.3:
+                        del r_[:]
+            c['jragged'] = True
+            c['jmissing'] = rng.choice([None, 'M', 5, pool[0]])
         if which == 'mergesort':
             # three and more inputs: the k-way merge has to keep ranking the remaining inputs by this ordering when one runs dry
             c['more'] = [[['k', 'c%d' % j]] + [[rng.choice(pool), 'u%d.%d' % (j, r)] for r in range(rng.randint(0, 4))]
@@ -334,15 +342,25 @@ def _judge_online(case, ctx):
                 if sorted(res['selectlt'] + res['selectge']) != sorted(r[2] for r in rows):
                     out.append({'kind': 'selectlt+selectge-not-a-partition', 'value': v, 'cells': cells})
         elif which == 'join':
+            from petlmon import oracles
             t2 = copy.deepcopy(case['table2'])
-            for fn in ('join', 'outerjoin'):
-                got = util.attempt_rows(lambda: getattr(petl, fn)(table, t2, key='k'))
+            jm = case.get('jmissing')
+            if case.get('jragged'):
+                ctx.seen('online:join-with-rows-that-lack-the-key-cell')
+            for fn in ('join', 'outerjoin', 'leftjoin'):
+                jkw = {'missing': jm} if (jm is not None and fn != 'join') else {}
+                got = util.attempt_rows(lambda: getattr(petl, fn)(table, t2, key='k', **jkw))
                 if isinstance(got, util.Raised):
                     out.append({'kind': 'exception', 'fn': fn, 'detail': got.text, 'where': got.where})
                 else:
                     ks = [r[0] for r in got[1:]]
                     if not all(util.model_cmp(a, b) <= 0 for a, b in zip(ks, ks[1:])):
                         out.append({'kind': 'join-output-not-grouped-ascending-under-model', 'fn': fn, 'observed': got})
+                    # keys pair up exactly when they are equivalent under the ordering ([1, 2] with (1, 2), 1 with 1.0 and True, a
+                    # key cell the row lacks with the fill value): the rows of the nested-loop reference join, no more and no fewer
+                    eh, er = oracles.ref_join(fn, copy.deepcopy(case['table']), copy.deepcopy(case['table2']), 'k', 'k', jm if fn != 'join' else None)
+                    if oracles.multiset(got[1:]) != oracles.multiset(er):
+                        out.append({'kind': 'join-rows-differ-from-the-reference-under-the-ordering-equivalence', 'fn': fn, 'expected': er, 'observed': got[1:]})
     ctx.seen('online:' + which, 1)
     ctx.seen('online-comparisons:' + which, sink.n)
     out.extend(sink.bad)
